@@ -80,4 +80,67 @@ def unswapURL (c : UInt8) : UInt8 := if c == 45 then 43 else if c == 95 then 47 
 `base64=1`): padding removed, alphabet mapped back, decoded -/
 def decodeURLPadded (v : Bytes) : Option Bytes := decodeRaw ((stripPad v).map unswapURL)
 
+/-! ### the URL-safe alphabet (`base64.URLEncoding` / `base64.RawURLEncoding`), strict
+
+The Connect GET `message` parameter: the reference client's raw request sender writes
+`base64.URLEncoding` (padded), connect-go's own client `base64.RawURLEncoding` (unpadded);
+connect-go's server reads either (`binaryQueryValueReader`).  Unlike `decodeURLPadded` above (the
+specification's lenient reading) the decoders here are the library's: each alphabet REJECTS the
+two characters of the other one, the raw variant rejects `=`, the padded variant demands a length
+that is a multiple of four. -/
+
+/-- the character for a 6-bit value in the URL-safe alphabet (`-` and `_` for 62 and 63) -/
+def encCharURL (n : Nat) : UInt8 :=
+  if n < 26 then UInt8.ofNat (n + 65)
+  else if n < 52 then UInt8.ofNat (n - 26 + 97)
+  else if n < 62 then UInt8.ofNat (n - 52 + 48)
+  else if n = 62 then 45 else 95
+
+def decCharURL (b : UInt8) : Option Nat :=
+  let n := b.toNat
+  if 65 ≤ n ∧ n ≤ 90 then some (n - 65)
+  else if 97 ≤ n ∧ n ≤ 122 then some (n - 97 + 26)
+  else if 48 ≤ n ∧ n ≤ 57 then some (n - 48 + 52)
+  else if n = 45 then some 62
+  else if n = 95 then some 63
+  else none
+
+/-- the `=` signs that complete the last quantum of an unpadded encoding of length `n` -/
+def padding (n : Nat) : Bytes := if n % 4 == 2 then [61, 61] else if n % 4 == 3 then [61] else []
+
+/-- `base64.RawURLEncoding.EncodeToString` (connect-go's `encodeBinaryQueryValue`) -/
+def encodeURLRaw (x : Bytes) : Bytes := (sextets (x.map (·.toNat))).map encCharURL
+
+/-- `base64.URLEncoding.EncodeToString` (raw_request.go, `param.Base64Encode`), with the URL
+alphabet as a table of its own -/
+def encodeURL (x : Bytes) : Bytes := encodeURLRaw x ++ padding (encodeURLRaw x).length
+
+/-- `base64.StdEncoding.EncodeToString` -/
+def encodeStdPadded (x : Bytes) : Bytes := encode x ++ padding (encode x).length
+
+/-- unpadded decoding with a given alphabet: every character must be in the alphabet (so `=`
+and the other alphabet's two characters are errors), one left-over sextet is an error -/
+def decodeRawWith (dec : UInt8 → Option Nat) (v : Bytes) : Option Bytes :=
+  match mapM? dec v with
+  | none => none
+  | some sx => (unsextets sx).map (·.map UInt8.ofNat)
+
+/-- `base64.RawURLEncoding` decoding -/
+def decodeURLRaw (v : Bytes) : Option Bytes := decodeRawWith decCharURL v
+
+/-- padded decoding with a given alphabet (`base64.URLEncoding` / `StdEncoding`): the length is
+a multiple of four, at most two `=` at the very end -/
+def decodePaddedWith (dec : UInt8 → Option Nat) (v : Bytes) : Option Bytes :=
+  if v.length % 4 != 0 then none else decodeRawWith dec (stripPad v)
+
+/-- connect-go `binaryQueryValueReader`: a length that is not a multiple of four cannot be padded
+(`RawURLEncoding`), otherwise `URLEncoding` -/
+def binaryQueryRead (v : Bytes) : Option Bytes :=
+  if v.length % 4 != 0 then decodeURLRaw v else decodePaddedWith decCharURL v
+
+/-- the same reader over the standard alphabet (counter-model: what a server would do that read
+the parameter with `StdEncoding`) -/
+def binaryQueryReadStd (v : Bytes) : Option Bytes :=
+  if v.length % 4 != 0 then decodeRawWith decChar v else decodePaddedWith decChar v
+
 end ConfModel.Base64
